@@ -537,13 +537,15 @@ OuterLoop:
 			// rs.Proposal was validated, so rs.Proposal.POLRound <= rs.Round,
 			// so we definitely have rs.Votes.Prevotes(rs.Proposal.POLRound).
 			if rs.Proposal.POLRound > 0 {
-				msg := &ProposalPOLMessage{
-					Height:           rs.Height,
-					ProposalPOLRound: rs.Proposal.POLRound,
-					ProposalPOL:      rs.Votes.Prevotes(rs.Proposal.POLRound).BitArray(),
+				if polPrevotes := rs.Votes.Prevotes(rs.Proposal.POLRound); polPrevotes != nil {
+					msg := &ProposalPOLMessage{
+						Height:           rs.Height,
+						ProposalPOLRound: rs.Proposal.POLRound,
+						ProposalPOL:      polPrevotes.BitArray(),
+					}
+					logger.Debug("Sending POL", "height", prs.Height, "round", prs.Round)
+					peer.Send(DataChannel, MustEncode(msg))
 				}
-				logger.Debug("Sending POL", "height", prs.Height, "round", prs.Round)
-				peer.Send(DataChannel, MustEncode(msg))
 			}
 			continue OuterLoop
 		}
